@@ -249,7 +249,8 @@ def oracle(c, res):
     top = known = None
     for i, (st, o) in enumerate(zip(c["steps"], res)):
         if "error" in o:
-            return None     # a control function outside the terminal spec: reference screen undefined; the tie reports it
+            c["_unreadable"] = o["error"]        # unreadable for the reference terminal: not judged, said loudly in the evidence
+            return None
         b, s = o["before"], o["state"]
         full_b = b["scrollback"] + b["screen"]
         full = s["scrollback"] + s["screen"]
@@ -298,10 +299,12 @@ def oracle(c, res):
             if full[:keep] != full_b[:keep]:
                 return "step %d: leaving the context altered rows above the cursor%s" % (
                     i, " or the kept last line (keep_last_line)" if c["keep"] else "")
+            # what is left below the cursor and whether the cursor is shown again are not in C07's statement (C12's):
+            # counted in the evidence, compared at representation level, no verdict
             if any(row != blank_row(w) for row in full[keep:]):
-                return "step %d: leaving the context left text below the cursor: %r" % (i, full[keep:])
+                c.setdefault("_exit_notes", []).append("text below the cursor after leaving")
             if c["hide"] and not s["cursor"][3]:
-                return "step %d: cursor left hidden" % i
+                c.setdefault("_exit_notes", []).append("cursor hidden after leaving")
             continue
         pos, rows = st[1], st[2]
         if any(len(eff_row(r)) > w for r in rows):
@@ -328,8 +331,10 @@ def oracle(c, res):
         crow = top2 + pos[0] - pushed
         if s["cursor"][:3] != (max(crow, 0), pos[1], False):
             return "step %d: cursor at %r, cursor_pos %r designates screen cell (%d, %d)" % (i, s["cursor"], pos, crow, pos[1])
-        if s["cursor"][3] != (True if not c["hide"] else b["cursor"][3]) or s["g"] != ():
-            return "step %d: cursor visibility / graphic state not restored" % i
+        if s["g"] != ():
+            return "step %d: graphic state left as %r" % (i, s["g"])
+        if s["cursor"][3] != (True if not c["hide"] else b["cursor"][3]):
+            c.setdefault("_exit_notes", []).append("cursor visibility after a render")      # C12's, no verdict
         top, known = top2, s["cursor"][0]
     return None
 
@@ -395,7 +400,7 @@ def rand_rows(r, n, w):
 
 
 def rand_history(r, pyte=True):
-    h, w = r.randint(1, 4), r.randint(2, 5)
+    h, w = r.randint(1, 4), r.randint(1, 5)
     screen = rand_junk(r, h, w)
     sb = [rand_junk(r, 1, w, False)[0] for _ in range(r.choice([0, 0, 1, 2, 3]))]
     c = dict(h=h, w=w, screen=screen, sb=sb, cursor=(r.randint(0, h - 1), r.choice([0, 0, r.randint(0, w - 1)])),
@@ -434,7 +439,7 @@ def rand_mixed(r, resize=True):
     resize=False: the content moves although the size stays (another program scrolled the screen): the row cache is
     stale then - outside the domain, run for the tie only (it is the one way window.py's `row not in cache` shortcut
     is reached with a non-empty cache)."""
-    h, w = r.randint(2, 4), r.randint(2, 5)
+    h, w = r.randint(1, 4), r.randint(1, 5)
     c = dict(h=h, w=w, screen=rand_junk(r, h, w), sb=[rand_junk(r, 1, w, False)[0] for _ in range(r.choice([0, 1, 2, 3]))],
              cursor=(r.randint(0, h - 1), 0), hide=r.random() < 0.5, keep=r.random() < 0.5, steps=[("E",)], pyte=False,
              outside_domain=not resize)
@@ -460,7 +465,7 @@ def rand_scrolled_off(r):
     """a render TALLER than the rows available with cursor_pos on a row that is scrolled off the top (the cursor is
     clamped to row 0), followed DIRECTLY by get_cursor_vertical_diff (no movement at all), then optionally a resize
     with movement and another diff"""
-    h, w = r.randint(1, 4), r.randint(2, 4)
+    h, w = r.randint(1, 4), r.randint(1, 4)
     crow = r.randint(0, h - 1)
     c = dict(h=h, w=w, screen=rand_junk(r, h, w), sb=[rand_junk(r, 1, w, False)[0] for _ in range(r.choice([0, 1, 2]))],
              cursor=(crow, 0), hide=r.random() < 0.5, keep=r.random() < 0.5, steps=[("E",)], pyte=False)
@@ -526,6 +531,15 @@ def exhaustive(ctx):
         for keep in (0, 1):
             cases.append(dict(h=h, w=w, screen=screen, sb=[[("o", ())] * 3], cursor=(crow, 0), hide=True, keep=bool(keep), pyte=False,
                               steps=[("E",), ("R", (min(pr, max(n1 - 1, 0)), 1), a1), ("R", (min(pr, max(n2 - 1, 0)), 2), a2), ("X",)]))
+    # the narrowest and lowest terminals: 3x1, 2x1, 1x1, 1x2, 1x3 - every initial cursor row x two array heights 0..h+2, rows
+    # empty or full width (one column: a full-width row is a single character and sets the pending wrap at once)
+    for (h1, w1) in ((3, 1), (2, 1), (1, 1), (1, 2), (1, 3)):
+        scr = [[(chr(112 + i), ())] * w1 for i in range(h1)]
+        for crow, n1, n2, keep in itertools.product(range(h1), range(h1 + 3), range(h1 + 3), (0, 1)):
+            a1 = [group([(chr(65 + i), {"fg": 31})] * (w1 if i % 2 == 0 else 0)) for i in range(n1)]
+            a2 = [group([(chr(97 + i), {})] * (w1 if i % 3 else max(w1 - 1, 0))) for i in range(n2)]
+            cases.append(dict(h=h1, w=w1, screen=scr, sb=[[("o", ())] * w1], cursor=(crow, 0), hide=True, keep=bool(keep), pyte=False,
+                              steps=[("E",), ("R", (max(n1 - 1, 0), 0), a1), ("R", (0, w1 - 1), a2), ("X",)]))
     # leaving with keep_last_line on/off with the cursor on EVERY row, in particular the bottom one (the kept line must
     # survive: the screen scrolls one line), after 0-2 rendered rows
     for h2, crow, n, keep in itertools.product((1, 2, 3), range(3), range(3), (0, 1)):
@@ -582,7 +596,15 @@ def check(ctx):
             ctx.violation(w[1], c, w[0])
         elif w:
             ctx.violation(w, c, None)
-        elif c.get("_pyte_disagrees"):
+        if c.get("_unreadable"):
+            ctx.dist["UNREADABLE-OUTPUT-history-not-judged"] += 1
+            if ctx.dist["UNREADABLE-OUTPUT-history-not-judged"] == 1:
+                ctx.note("UNREADABLE OUTPUT: the reference terminal cannot read what the window wrote (%s); such histories are "
+                         "NOT JUDGED by the oracle (count in distribution: UNREADABLE-OUTPUT-history-not-judged); first: %r"
+                         % (c["_unreadable"], line(c)[:200]))
+        for n in set(c.get("_exit_notes", [])):
+            ctx.dist[n + " (C12's, not judged here)"] += 1
+        if not w and c.get("_pyte_disagrees"):
             ctx.dist["pyte-disagrees-with-reference-terminal"] += 1
             if ctx.dist["pyte-disagrees-with-reference-terminal"] == 1:
                 ctx.note("pyte (second opinion) disagrees with the reference terminal although the property holds on it, "
